@@ -33,7 +33,24 @@ fn main() {
         eprintln!("usage: sim <ref|work|batch|exec-file|replay|pool> ...");
         std::process::exit(2);
     }
-    let (pos, m) = args_map(&argv[1..]);
+    let (mut pos, mut m) = args_map(&argv[1..]);
+    // the process moves to a private working directory before it calls into the library:
+    // make every path argument absolute first
+    if let Ok(cwd) = std::env::current_dir() {
+        let abs = |v: &mut String| {
+            if !v.is_empty() && !v.starts_with('/') {
+                *v = cwd.join(&*v).to_string_lossy().to_string();
+            }
+        };
+        if matches!(argv[0].as_str(), "exec-file" | "replay" | "replay-chain") {
+            pos.iter_mut().for_each(abs);
+        }
+        for k in ["pool", "refs", "out", "cand-dir", "known", "work-dir", "replay-dir"] {
+            if let Some(v) = m.get_mut(k) {
+                abs(v);
+            }
+        }
+    }
     a5sim::procs::enter_private_tmp();
     match argv[0].as_str() {
         "ref" => a5sim::procs::ref_main(),
